@@ -160,3 +160,22 @@ Proof.
   - destruct Hm as [e [log2 Hm]]. rewrite Hm in Hrun. discriminate Hrun.
 Qed.
 Print Assumptions C08_code_skeleton_conserves.
+
+(* ---- and with the two helper callees answered by the helpers AS TRANSLATED IN FULL (Gen/G_cluster_maintenance.v: g_find_point_donor,
+   g_move_random_points, the j-th move drawing the j-th sample) instead of the model's (Proofs/InterpRepopCode.v): under the model's own
+   well-formedness hypothesis (labels < K, `order` = the under-populated clusters without repetition, every draw a repetition-free
+   list of positions within its donor) the control skeleton as translated computes Model/Repop.repopulate - glue AND helpers are the
+   code's ---- *)
+From Ticc Require Import Proofs.InterpRepopCode.
+Theorem C08_code_skeleton_and_helpers_compute_model : forall (K m : nat) (spread : nat -> nat) (order : list nat) (draws : list (list nat)) (labels : list nat),
+  Hyp K m spread order draws labels ->
+  match repopulate K m spread order draws labels with
+  | Some out => exists log',
+      g_repopulate_empty_clusters val as_int getattr as_list (oracle_code K m spread order draws) (VState labels) []
+      = (Ret (VState out), log')
+  | None => exists e log',
+      g_repopulate_empty_clusters val as_int getattr as_list (oracle_code K m spread order draws) (VState labels) []
+      = (Raise e, log')
+  end.
+Proof. exact repopulate_code_is_model. Qed.
+Print Assumptions C08_code_skeleton_and_helpers_compute_model.
